@@ -218,6 +218,18 @@ func VerifC19Redecode(s1, s2, n, copyFirst int) {
 		verifAssert(len(l.Labels) == len(all), "decoding-into-a-copy-leaves-the-names")
 		verifAssert(verifSame(l.ToBytes(), b1), "decoding-into-a-copy-leaves-the-encoding")
 	}
+	if err2 != nil && st2 == refReject {
+		// whatever the object holds after a decoding that failed, it holds it consistently: its
+		// encoding is an encoding of the names it lists (here: names the harness can read back)
+		enc := target.ToBytes()
+		hn, hst := refNames(enc)
+		verifAssert(hst == refOK && len(hn) == len(target.Labels), "after-a-failed-decoding-the-encoding-still-agrees-with-the-names")
+		if hst == refOK && len(hn) == len(target.Labels) {
+			for i := range hn {
+				verifAssert(verifSame([]byte(target.Labels[i]), refJoin(hn[i])), "after-a-failed-decoding-the-encoding-still-agrees-with-the-names")
+			}
+		}
+	}
 	if err2 == nil && st2 == refOK {
 		verifAssert(len(target.Labels) == len(names2), "same-number-of-names")
 		if len(target.Labels) == len(names2) {
